@@ -45,6 +45,7 @@ func init() {
 	add("multi-ref", false, "snps", "ref", "list", "ref", "toprank", "ref", "topa", "ref", "samvar", "ref")
 	add("csv-empty", false, "toprank-csv", "query", "toprank-csv", "target")
 	add("csv-bad-header", false, "toprank-csv", "query", "toprank-csv", "target")
+	add("csv-extra-column", false, "toprank-csv", "query", "toprank-csv", "target")
 	add("csv-malformed-row", true, "toprank-csv", "query", "toprank-csv", "target")
 	add("window-start-0", false, "toma", "", "topa", "")
 	add("window-start-beyond", false, "toma", "", "topa", "")
@@ -292,6 +293,17 @@ func runC18(c *fw.Ctx, idx int) fw.Result {
 	case "csv-bad-header":
 		lines := strings.SplitN(files[sp.file], "\n", 2)
 		files[sp.file] = "name,mutations,ambiguities,SNPcount,ambcount\n" + lines[1]
+	case "csv-extra-column":
+		// some other table that happens to start with the five columns of a list
+		lines := strings.Split(strings.TrimSuffix(files[sp.file], "\n"), "\n")
+		for i := range lines {
+			if i == 0 {
+				lines[i] += []string{",lineage", ",", ",note,date"}[idx%3]
+			} else {
+				lines[i] += []string{",B.1.1.7", ",", ",x,2021-01-01"}[idx%3]
+			}
+		}
+		files[sp.file] = strings.Join(lines, "\n") + "\n"
 	case "csv-malformed-row":
 		lines := strings.Split(strings.TrimSuffix(files[sp.file], "\n"), "\n")
 		i := 1 + posIndex(len(lines)-1, pos)
